@@ -28,6 +28,56 @@ Theorem C20_pager_permutation :
 Proof. exact @pager_permutation. Qed.
 Print Assumptions C20_pager_permutation.
 
+(* ---- read conversion: spans are the instants the backend reports ----
+   Hypotheses: the calendar zone has been fetched; the row agrees with the backend's truth (all-day:
+   local midnights of its dates in the calendar's zone); for a timed event handed out as a zoneinfo
+   or naive wall clock, instant -> wall clock (+fold) -> instant is the identity in that zone
+   (zone_rt; proved for UTC below); a naive wall clock is not taken for all-day by the midnight
+   heuristic (the real client only hands out aware datetimes). *)
+Theorem C20_read_span_exact :
+  forall (a a' : astate) (w : row) (ev : aev),
+    a_tz a = Some (Some (bs_zone (a_b a))) ->
+    row_wf (a_b a) w ->
+    (s_allday (w_ev w) = false -> pres_ok (a_b a) (w_ev w)) ->
+    (s_allday (w_ev w) = false -> s_pres (w_ev w) = KNaive -> is_all_day_event (present (a_b a) w) = false) ->
+    convert a (present (a_b a) w) = (a', Some (Some ev)) ->
+    e_s ev = w_s w /\ Some (e_e ev) = w_e w /\ Some (e_id ev) = w_id w /\ Some (e_sum ev) = s_sum (w_ev w) /\
+    e_rid ev = w_rid w /\ e_desc ev = s_desc (w_ev w) /\
+    (s_allday (w_ev w) = true -> e_allday ev = true).
+Proof. exact read_span_exact. Qed.
+Print Assumptions C20_read_span_exact.
+
+(* in particular an all-day row reads back from local midnight to local midnight of the calendar's zone *)
+Theorem C20_read_all_day_midnights :
+  forall (a a' : astate) (w : row) (ev : aev) (d1 : Z),
+    a_tz a = Some (Some (bs_zone (a_b a))) -> row_wf (a_b a) w ->
+    s_allday (w_ev w) = true -> w_k1 w = Some d1 ->
+    convert a (present (a_b a) w) = (a', Some (Some ev)) ->
+    e_s ev = wall_to_utc (bs_zone (a_b a)) (w_k0 w * DAY) false /\
+    e_e ev = wall_to_utc (bs_zone (a_b a)) (d1 * DAY) false.
+Proof. exact read_all_day_midnights. Qed.
+Print Assumptions C20_read_all_day_midnights.
+
+(* ---- add, then read: same span ----
+   Hypotheses: zone fetched; for an event written as all-day (declared or inferred) start and end are
+   local midnights of the calendar's zone that are not the repeated half of an ambiguous wall time. *)
+Theorem C20_add_then_read :
+  forall (a a1 : astate) (w : wev) (id : N) (ad : bool) (s e : Z),
+    a_tz a = Some (Some (bs_zone (a_b a))) ->
+    add_interval a w = (a1, [(true, Some (EId id, s, e, ad))]) ->
+    (ad = true ->
+     let z := bs_zone (a_b a) in
+     utc_to_wall z (v_s w) mod DAY = 0 /\ utc_to_wall z (v_e w) mod DAY = 0 /\
+     unfolded z (v_s w) /\ unfolded z (v_e w)) ->
+    s = v_s w /\ e = v_e w /\
+    exists st r,
+      In st (bs_store (a_b a1)) /\ rows_of_ev (a_b a1) None None st = [r] /\
+      w_id r = Some (EId id) /\ w_s r = v_s w /\ w_e r = Some (v_e w) /\
+      forall a2 ev, convert a1 (present (a_b a1) r) = (a2, Some (Some ev)) ->
+                    e_s ev = v_s w /\ e_e ev = v_e w /\ e_id ev = EId id.
+Proof. exact add_then_read. Qed.
+Print Assumptions C20_add_then_read.
+
 (* ---- fault containment ---- *)
 (* (1) the discipline holds of the CURRENT source of calgebra/gcsa.py *)
 Theorem C20_guard_discipline_holds : guard_discipline facts = true.
@@ -66,6 +116,9 @@ Proof.
   - simpl. intros x H. repeat destruct H as [<-|H]; simpl; try discriminate; contradiction.
   - vm_compute. reflexivity.
 Qed.
+(* the zone hypothesis is satisfiable *)
+Example C20_zone_rt_utc : zone_rt utc_zone.
+Proof. exact utc_zone_rt. Qed.
 (* a facts table violating the discipline is rejected: an undecorated hook with a bare backend call *)
 Example C20_discipline_rejects :
   guard_discipline (mkGF true [mkGM "_add_many" true false [mkBC "calendar.service.events" false] []]) = false.
